@@ -67,29 +67,31 @@ Proof.
   unfold with_hm.
   apply set_minute_code; [|lia]. rewrite !C14.pget_pput_other by discriminate. exact F3.
 Qed.
-(* ':' second [fraction] at the end of the text *)
-Lemma run_second_frac rel p s sub items : pget F_second p = None -> pget F_nanosecond p = None ->
-  0 <= s <= 60 -> 0 <= sub < 1000000000 ->
-  parse_items rel p (low_digits 2 s ++ frac_part sub) (INumeric N_Second PadZero :: IFixed F_Nanosecond :: items) =
-  parse_items rel (with_frac (pput F_second (Some s) p) sub) [] items.
+(* second [fraction] followed by [rest] (which starts neither with a digit nor with '.') *)
+Definition frac_stop (rest : bytes) : Prop :=
+  ascii rest /\ not_digit_start rest = true /\ starts_with_byte rest 46 = false.
+Lemma frac_stop_nil : frac_stop [].
+Proof. repeat split. constructor. Qed.
+Lemma run_second_frac rel p s sub rest items : pget F_second p = None -> pget F_nanosecond p = None ->
+  0 <= s <= 60 -> 0 <= sub < 1000000000 -> frac_stop rest ->
+  parse_items rel p (low_digits 2 s ++ frac_part sub ++ rest) (INumeric N_Second PadZero :: IFixed F_Nanosecond :: items) =
+  parse_items rel (with_frac (pput F_second (Some s) p) sub) rest items.
 Proof.
-  intros F4 F5 Hs Hsub.
+  intros F4 F5 Hs Hsub (Ha & Hnd & Hdot).
   rewrite (step_num2 rel p s _ _ N_Second PadZero 18 (pput F_second (Some s) p) eq_refl ltac:(lia)); [| |apply set_second_code; assumption].
-  2:{ apply utf8_ascii. apply ascii_frac. }
+  2:{ apply utf8_ascii. apply ascii_app; [apply ascii_frac|exact Ha]. }
   assert (F5' : pget F_nanosecond (pput F_second (Some s) p) = None).
   { rewrite C14.pget_pput_other by discriminate. exact F5. }
+  assert (Hv : utf8_valid rest = true) by (apply utf8_ascii; exact Ha).
   unfold frac_part, with_frac.
-  destruct (sub =? 0) eqn:E0; [apply step_nano_none; reflexivity|].
+  destruct (sub =? 0) eqn:E0; [cbn [app]; apply step_nano_none; exact Hdot|].
   destruct (sub mod 1000000 =? 0) eqn:E1.
-  { rewrite <- (app_nil_r (low_digits 3 _)).
-    rewrite step_nano_digits; try reflexivity; try assumption; try lia.
+  { cbn [app]. rewrite step_nano_digits; try reflexivity; try assumption; try lia.
     change (10 ^ (9 - Z.of_nat 3)) with 1000000. replace (sub / 1000000 * 1000000) with sub by lia. reflexivity. }
   destruct (sub mod 1000 =? 0) eqn:E2.
-  { rewrite <- (app_nil_r (low_digits 6 _)).
-    rewrite step_nano_digits; try reflexivity; try assumption; try lia.
+  { cbn [app]. rewrite step_nano_digits; try reflexivity; try assumption; try lia.
     change (10 ^ (9 - Z.of_nat 6)) with 1000. replace (sub / 1000 * 1000) with sub by lia. reflexivity. }
-  rewrite <- (app_nil_r (low_digits 9 _)).
-  rewrite step_nano_digits; try reflexivity; try assumption; try lia.
+  cbn [app]. rewrite step_nano_digits; try reflexivity; try assumption; try lia.
   change (10 ^ (9 - Z.of_nat 9)) with 1. rewrite Z.mul_1_r. reflexivity.
 Qed.
 
@@ -130,7 +132,8 @@ Proof.
   rewrite parse_items_nil. cbn [pbind bind pok].
   rewrite step_space by (cbn; unfold is_whitespace; lia).
   rewrite step_lit by (apply utf8_ascii; ascii_tac).
-  rewrite (run_second_frac _ _ S sub); try reflexivity; try lia.
+  rewrite <- (app_nil_r (frac_part sub)).
+  rewrite (run_second_frac _ _ S sub); try reflexivity; try lia; [|apply frac_stop_nil].
   rewrite step_space by exact I. rewrite parse_items_nil. cbn [pbind bind pok].
   unfold parse, parse_end, parse_internal. rewrite step_space by exact I.
   rewrite parse_items_nil. cbn [pbind bind pok is_empty]. unfold pr_of.
@@ -153,4 +156,67 @@ Proof.
   intros H. exists (time_txt (Time.tsecs t) (Time.tfrac t)).
   unfold time_display. rewrite time_debug_text by exact (proj1 H). cbn [app].
   repeat split. apply time_roundtrip_text. exact H.
+Qed.
+
+(** * the full time part "hh:mm:ss[.f]" inside a longer text (NaiveDateTime, DateTime) *)
+Definition with_time (p : parsed) (s f : Z) : parsed :=
+  let leap := 1000000000 <=? f in
+  let sub := if leap then f - 1000000000 else f in
+  with_frac (pput F_second (Some (s mod 60 + (if leap then 1 else 0))) (with_hm p (s / 3600) (s / 60 mod 60))) sub.
+
+Lemma run_time rel p s f rest items : time_fresh p -> time_dom (Time.mk_time s f) -> frac_stop rest ->
+  parse_items rel p (time_txt s f ++ rest)
+    (INumeric N_Hour PadZero :: Space [] :: Literal [58] :: INumeric N_Minute PadZero :: Space [] :: Literal [58]
+     :: INumeric N_Second PadZero :: IFixed F_Nanosecond :: items) =
+  parse_items rel (with_time p s f) rest items.
+Proof.
+  intros Hfresh [[Hs Hf] Hl] Hstop. cbn [Time.tsecs Time.tfrac] in *.
+  unfold time_txt, with_time.
+  set (leap := 1000000000 <=? f). set (sub := if leap then f - 1000000000 else f).
+  set (S := s mod 60 + (if leap then 1 else 0)).
+  assert (Hsub : 0 <= sub < 1000000000) by (unfold sub, leap; destruct (1000000000 <=? f) eqn:E; lia).
+  assert (HS : 0 <= S <= 60) by (unfold S, leap; destruct (1000000000 <=? f) eqn:E; lia).
+  destruct Hstop as (Ha & Hstop').
+  repeat (rewrite <- app_assoc; cbn [app]).
+  rewrite (run_hour_minute rel p (s / 3600) (s / 60 mod 60)); try assumption; try lia.
+  2:{ ascii_tac. exact Ha. }
+  rewrite step_space by (cbn; unfold is_whitespace; lia).
+  rewrite step_lit by (apply utf8_ascii; ascii_tac; exact Ha).
+  destruct Hfresh as (F1 & F2 & F3 & F4 & F5).
+  rewrite (run_second_frac rel _ S sub rest); try lia; [reflexivity| | |split; assumption].
+  - unfold with_hm. rewrite !C14.pget_pput_other by discriminate. exact F4.
+  - unfold with_hm. rewrite !C14.pget_pput_other by discriminate. exact F5.
+Qed.
+
+Lemma to_naive_time_with_time p s f : time_dom (Time.mk_time s f) -> p_nanosecond p = None ->
+  to_naive_time (with_time p s f) = Val (Ok (Time.mk_time s f)).
+Proof.
+  intros [[Hs Hf] Hl] Hnano. cbn [Time.tsecs Time.tfrac] in *. unfold with_time.
+  set (leap := 1000000000 <=? f). set (sub := if leap then f - 1000000000 else f).
+  set (S := s mod 60 + (if leap then 1 else 0)).
+  assert (Hsub : 0 <= sub < 1000000000) by (unfold sub, leap; destruct (1000000000 <=? f) eqn:E; lia).
+  assert (HS : 0 <= S <= 60) by (unfold S, leap; destruct (1000000000 <=? f) eqn:E; lia).
+  rewrite (to_naive_time_fields _ (s / 3600) (s / 60 mod 60) S sub); try lia.
+  - unfold S, sub, leap. destruct (1000000000 <=? f) eqn:E.
+    + assert (s mod 60 = 59) by lia. replace (s mod 60 + 1 =? 60) with true by lia.
+      do 3 f_equal; lia.
+    + rewrite Z.add_0_r. replace (s mod 60 =? 60) with false by lia. do 3 f_equal; lia.
+  - unfold with_frac. destruct (sub =? 0); reflexivity.
+  - unfold with_frac. destruct (sub =? 0); reflexivity.
+  - unfold with_frac. destruct (sub =? 0); reflexivity.
+  - unfold with_frac. destruct (sub =? 0); reflexivity.
+  - unfold with_frac. destruct (sub =? 0); [exact Hnano|reflexivity].
+Qed.
+(* the date fields are untouched by the time items *)
+Lemma with_time_date p s f :
+  p_year (with_time p s f) = p_year p /\ p_month (with_time p s f) = p_month p /\ p_day (with_time p s f) = p_day p /\
+  p_year_div_100 (with_time p s f) = p_year_div_100 p /\ p_year_mod_100 (with_time p s f) = p_year_mod_100 p /\
+  p_isoyear (with_time p s f) = p_isoyear p /\ p_isoyear_div_100 (with_time p s f) = p_isoyear_div_100 p /\
+  p_isoyear_mod_100 (with_time p s f) = p_isoyear_mod_100 p /\ p_quarter (with_time p s f) = p_quarter p /\
+  p_week_from_sun (with_time p s f) = p_week_from_sun p /\ p_week_from_mon (with_time p s f) = p_week_from_mon p /\
+  p_isoweek (with_time p s f) = p_isoweek p /\ p_weekday (with_time p s f) = p_weekday p /\
+  p_ordinal (with_time p s f) = p_ordinal p /\ p_timestamp (with_time p s f) = p_timestamp p /\
+  p_offset (with_time p s f) = p_offset p.
+Proof.
+  unfold with_time, with_frac. destruct ((if 1000000000 <=? f then f - 1000000000 else f) =? 0); repeat split.
 Qed.
